@@ -48,7 +48,12 @@ inline bool operator==(const VLabel &a, const VLabel &b) { return a.v == b.v; }
 inline VLabel abs_label(const VLabel &l) { return l; }
 inline NoLabel abs_label(const BaseGraph::NoLabel &) { return NoLabel{0}; }
 inline EdgeMultiplicity abs_label(unsigned int m) { return m; }
-inline bg_real abs_label(double w) { return (bg_real)w; } // A-REAL: replay uses integral weights only
+inline bg_real abs_label(double w) { return (bg_real)(long)w; } // A-REAL: replay uses integral weights only
+
+inline bg_size abs_num(const VLabel &) { return 0; }
+inline bg_size abs_num(const BaseGraph::NoLabel &) { return 0; }
+inline bg_size abs_num(unsigned int m) { return m; }
+inline bg_size abs_num(double w) { return (bg_size)(long)w; }
 
 template <class T>
 struct Cells { bg_list rp, rq; T vpq, vqp; };
@@ -99,6 +104,9 @@ void alpha_base(const BaseGraph::LabeledDirectedGraph<L> &g, bg_adj &a, AbsMap &
         if (it != g.edgeLabels.end()) { m.s.hasQP = 1; st.vqp = abs_label(it->second); }
     }
     m.s.restCount = g.edgeLabels.size() - (m.s.hasPQ ? 1 : 0) - (m.s.hasQP ? 1 : 0);
+    m.s.restSum = 0;
+    for (auto &kv : g.edgeLabels)
+        if (!(kv.first == pq) && !(G_P != G_Q && kv.first == qp)) m.s.restSum += abs_num(kv.second);
 }
 
 template <class L, class Abs, class T>
@@ -125,12 +133,12 @@ void alpha(const BaseGraph::UndirectedMultigraph &g, Abs &a, Cells<T> &st) {
 template <class Abs, class T>
 void alpha(const BaseGraph::DirectedWeightedGraph &g, Abs &a, Cells<T> &st) {
     alpha(g.asLabeledGraph(), a.base, st);
-    a.totalWeight = (bg_real)g.totalWeight;
+    a.totalWeight = (bg_real)(long)g.totalWeight;
 }
 template <class Abs, class T>
 void alpha(const BaseGraph::UndirectedWeightedGraph &g, Abs &a, Cells<T> &st) {
     alpha(g.asLabeledGraph(), a.base, st);
-    a.totalWeight = (bg_real)g.totalWeight;
+    a.totalWeight = (bg_real)(long)g.totalWeight;
 }
 
 // ---- enumeration of small concrete graphs through the public API
